@@ -115,6 +115,8 @@ func vpNoteWrite(b []byte)
 func vpNote(label string, v interface{})
 func vpFsSnapshot(dir string) int
 func vpFsSame(a, b int) bool
+func vpFsSnapshotNoTmp(dir string) int
+func vpFaultWhere() string
 func vpFsPermute(on bool)
 func vpFsMutations() int
 func vpFsConfined(base string) bool
@@ -327,7 +329,7 @@ func run() int {
 					reproduced, out = replayNative(*flagRepo, *flagVerif, pkgDirOfUnit(fn.Pkg.Pkg.Path()), hfiles, name, v.AssertID, rp)
 				}
 			}
-			sig := name + "/" + v.AssertID
+			sig := name + "/" + strings.ReplaceAll(v.AssertID, " ", "_")
 			if reproduced == "no" && strings.HasPrefix(v.AssertID, "sched:") {
 				// a legal Go schedule (switches only at channel operations) that the native
 				// scheduler did not happen to produce in the retries: the inputs and the path up
